@@ -30,13 +30,18 @@ type verifDB struct {
 	linkedIP  netip.Addr
 	dedicIP   netip.Addr
 	autoDev   bool
+	noNil     bool // the database contract of the by-address lookups: never (nil, nil, nil)
 }
 
 var verifErrOther = errors.New("db failure")
 
 func (db *verifDB) answer() (*agd.Profile, *agd.Device, error) {
 	db.calls++
-	switch verifChoice(5) {
+	n := 5
+	if db.noNil {
+		n = 4
+	}
+	switch verifChoice(n) {
 	case 0:
 		return db.prof, db.dev, nil
 	case 1:
